@@ -5,7 +5,7 @@ spec/Parser.tla is the fault model (mutation descriptors per length class) and t
 MC_ParserGen is the generator: TLC enumerates every descriptor for the length classes of the
 valid encodings the real encoders produced (and computes Apply for a test encoding, against which
 the harness' apply() is compared for equality); harness bin c15 applies the descriptors and runs
-every parser call in a child process (RLIMIT_AS 1 GiB, 10 s watchdog, catch_unwind); Trace_Parser
+every parser call in a child process (RLIMIT_AS 1 GiB, watchdog: 10 s of CPU time or 120 s blocked, catch_unwind); Trace_Parser
 validates one batch event per (parser, expected-length variant, encoding, descriptor kind):
 n_cases must equal the size of the descriptor class computed by TLC, the outcomes must add up,
 and no outcome other than ok / err may occur.
@@ -94,6 +94,27 @@ def run(ctx):
     ctx.selftest_corrupt(TRACE, files[0], corrupt_outcome_panic, "one outcome of a clean batch changed to panic")
     ctx.selftest_corrupt(TRACE, files[0], corrupt_bad_list, "bad-case list of a clean batch made non-empty")
     ctx.selftest_corrupt(TRACE, files[0], corrupt_n_cases, "n_cases one below the size of the descriptor class")
+    # --- containment self-test: a hang, a SIGSEGV, an abort, a panic and a failed allocation produced by the
+    # harness inside five calls of one parser must each be contained, attributed to that case, reported with
+    # the right outcome - and the resulting trace must be rejected by the contract
+    gen = os.path.join(ctx.work, "MC_ParserGen.replay.ndjson")
+    encs = os.path.join(s_enc["_out"], "encs.ndjson")
+    os.environ["C15_INJECT"] = "hang@60000,segv@60010,abort@60020,panic@60030,oom@60040"
+    try:
+        s_inj = ctx.harness(BIN, "run", "inject", extra={"in": gen, "encs": encs}, subject="varint.decode", allow_fail=True)
+    finally:
+        del os.environ["C15_INJECT"]
+    got = s_inj.get("outcomes", {})
+    want = {"timeout": 1, "signal": 1, "abort": 1, "panic": 1, "oom": 1}
+    if any(got.get(k) != v for k, v in want.items()) or s_inj.get("tool_errors"):
+        raise vlib.ToolError("containment self-test: injected failures were reported as %s" % got)
+    inj_files = sorted(glob.glob(os.path.join(s_inj["_out"], "*.ndjson")))
+    r = vlib.validate_one(TRACE, inj_files[-1], kf=True)
+    if r["accepted"] or r["rejected_at"] is None:
+        raise vlib.ToolError("containment self-test: the trace with injected crashes was not rejected: %s" % r)
+    ctx.cov["selftests"].append({"what": "injected hang / SIGSEGV / abort / panic / failed allocation contained, attributed and rejected by TLC",
+                                 "rejected_as_expected": True, "at": r["rejected_at"], "outcomes": {k: got.get(k) for k in want}})
+    vlib.log("self-test ok: injected hang/segv/abort/panic/oom contained and rejected (line %s)" % r["rejected_at"])
     # --- evidence
     cov = ctx.cov
     cov["evaluations"] = s.get("cases", 0)
@@ -119,15 +140,17 @@ def run(ctx):
                    "child process; descriptors enumerated by TLC from Parser.tla for the length class |E|: every truncation n < |E|, every "
                    "position x 7 substitution values, every 4/8-byte window (aligned and unaligned) in the first 64 bytes x 6 length "
                    "patterns, 6 kinds of appended garbage, window x truncation combinations (%s), plus every byte string up to length %d "
-                   "fed raw; parsers with an expected-length argument run every class under 5 values (exact, 0, +1, 2^31, usize::MAX). "
+                   "fed raw (length 3: the parsers without an expected-length argument whose call costs microseconds; the 50 ms-per-call "
+                   "and file-backed parsers: up to length 1); parsers with an expected-length argument run every class under 5 values (exact, 0, +1, 2^31, usize::MAX). "
                    "distinct_nontrivial = cases executed whose input is mutated or raw (kind != base case, not skipped); exhaustive refers "
-                   "to the descriptor classes of each encoding." % ("all truncation points for |E| <= 160, else 4 classes" if ctx.thorough else "4 truncation classes per window", 3 if ctx.thorough else 2))
+                   "to the descriptor classes of each encoding." % ("all truncation points for |E| <= 320, else 4 classes" if ctx.thorough else "4 truncation classes per window", 3 if ctx.thorough else 2))
     for ev in s.get("samples", [])[:4]:
         ctx.sample(ev)
     ctx.sample_from_trace(files[0], 6)
     ctx.assumptions += [
         "TLC enumerates the descriptors and judges the recorded outcomes; the harness only applies descriptors (its apply() is compared with TLC's Apply on a 70-byte test encoding every run)",
         "a huge allocation is observed as a failed allocation under RLIMIT_AS = 1 GiB (outcome oom); allocations below the limit are not flagged",
+        "timeout = 10 s of process CPU time inside one call (or 120 s blocked); wall time is not used because the sandbox stalls for seconds under load",
         "after 4 process-killing cases (2 timeouts) in one batch the rest of that batch is skipped and reported as skipped, never as passed",
         "valid encodings come from the real encoders on 2 (quick) / 4 (thorough) payloads; string inputs (hex, base64) are passed through from_utf8_lossy",
         "parsers that rebuild a 257x4096 decode table per call (huff.ctx.decode_xN) get raw strings up to length 1 only",
